@@ -259,6 +259,18 @@ impl<const N: usize> Exec<N> {
                 if *kind == 1 && !read_already {
                     return Ok(Applied::Skipped);
                 }
+                if *kind == 5 {
+                    // put + first read, over and over: the reads must not be able to kill (the vertex
+                    // is ungrouped, or another member of its group stays unread throughout)
+                    let mv = &inst.m.present[&v];
+                    let safe = match mv.group {
+                        None => true,
+                        Some(g) => inst.m.groups[&g].iter().any(|x| *x != v && inst.m.present[x].unread),
+                    };
+                    if !safe || !inst.m.can_put(v) {
+                        return Ok(Applied::Skipped);
+                    }
+                }
                 let mut insts = vec![*i];
                 insts.extend(self.view.followers(*i).into_iter().map(|(f, _)| f));
                 let ctr = self.view.put_counter;
@@ -278,6 +290,12 @@ impl<const N: usize> Exec<N> {
                                 1 => drop(g.data(v)),
                                 2 => g.add(v),
                                 3 => drop(g.clone()),
+                                5 => {
+                                    let mut d = (ctr + k as u64).to_le_bytes().to_vec();
+                                    d.push(0xC5);
+                                    g.put(v, &Hex::from_vec(d));
+                                    drop(g.data(v));
+                                }
                                 _ => drop(g.save(Path::new("repeat-scratch.sodg"))),
                             }
                         }
@@ -302,6 +320,12 @@ impl<const N: usize> Exec<N> {
                     }
                     1 => self.op_with_followers(*i, &Op::Data(v)).map(|_| ()),
                     2 => self.op_with_followers(*i, &Op::Add(v)).map(|_| ()),
+                    5 => {
+                        self.view.put_counter += *times as u64;
+                        let mut d = (ctr + *times as u64).to_le_bytes().to_vec();
+                        d.push(0xC6);
+                        self.op_with_followers(*i, &Op::Put(v, d)).and_then(|_| self.op_with_followers(*i, &Op::Data(v))).map(|_| ())
+                    }
                     _ => {
                         // nothing may have changed: an add() of the present vertex closes the storm
                         self.op_with_followers(*i, &Op::Add(v)).map(|_| ())
